@@ -1,0 +1,12 @@
+//go:build !verif
+// +build !verif
+
+// Package verifhook provides named yield points for the verification harness.
+// Without the build tag `verif` every hook is dead code.
+package verifhook
+
+// On reports whether hooks are compiled in.
+const On = false
+
+// Gate is a no-op without the verif build tag.
+func Gate(point string, args ...interface{}) {}
